@@ -56,6 +56,14 @@ def setup(ctx):
                         ctx.check("dac.post", False, f"DAC {pulse_shape}: sample {bad} (slot {bad // sps}, offset {bad % sps}) = {r.signal[bad]!r}, expected {want[bad]!r}", sps=sps, Vout=Vout, bias=bias)
                     else:
                         ctx.check("dac.post", True)
+                        # the samples are voltages: the library's own arithmetic on the waveform must treat them as the numbers
+                        # bias+Vout*b (a waveform stored in a narrow unsigned type compares equal but wraps under `x - v`)
+                        c = float(vo + bi)         # a python float: numpy scalars on the left of `-` would bypass the library's operator
+                        with core.quiet():
+                            d, e = r - c, c - r
+                        ctx.check("dac.arith", np.allclose(np.asarray(d.signal, dtype=float), want - c, rtol=1e-12, atol=1e-12 * max(abs(c), 1.0))
+                                  and np.allclose(np.asarray(e.signal, dtype=float), c - want, rtol=1e-12, atol=1e-12 * max(abs(c), 1.0)),
+                                  f"DAC {pulse_shape}: waveform - {c!r} / {c!r} - waveform computed by the library differ from the same subtraction on bias+Vout*bits (waveform dtype {r.signal.dtype})", Vout=Vout, bias=bias)
             return r
         return wrapper
 
@@ -103,7 +111,7 @@ def pick_level(rng):
 def w_levels(ctx, rng, i):
     sps = pick_sps(rng, i, ctx.tier)
     T.gv(sps=sps, R=float(10 ** rng.uniform(6, 10.5)))
-    n = int(rng.choice([1, 2, 3, 8, 33, 200]))
+    n = core.long_or(rng, i, int(rng.choice([1, 2, 3, 8, 33, 200])), longs=(5000, 20011, 70001), every=64)   # long bit records (x sps samples)
     b = rng.integers(0, 2, n)
     if i % 5 == 0:
         b[:] = i // 5 % 2
